@@ -7,6 +7,8 @@ import (
 	"fmt"
 	"sync"
 	"sync/atomic"
+
+	"github.com/mit-pdos/go-nfsd/dir"
 )
 
 type EnumRes struct {
@@ -467,8 +469,8 @@ func limClass(c uint32) string {
 // dirSlots: number of entry slots the directory has now (its size in entries).
 func (e *enumSess) dirSlots(dfh []byte, atLeast int) int {
 	ga := doOp(e.s.srv.API, &Op{K: OpGetattr, H: dfh})
-	if ga.Stat == stOK && int(ga.Size/128) > atLeast {
-		return int(ga.Size / 128)
+	if ga.Stat == stOK && int(ga.Size/dir.DIRENTSZ) > atLeast {
+		return int(ga.Size / dir.DIRENTSZ)
 	}
 	return atLeast
 }
